@@ -117,9 +117,10 @@ class Harness:
             results.add(key)
             if got[2]: nonempty = True
           if diff:
-            sig = (classify(case, pred, d, exp, got, diff) if classify else None) or 'mismatch/%s' % case.family
+            specific = classify(case, pred, d, exp, got, diff) if classify else None
+            sig = specific or 'mismatch/%s' % case.family
             self.add_viol(sig, '%s on %s: %s | %s' % (pred, d, diff, oneline(text)), case, dict(pred=pred, db=d))
-            break
+            if not specific: break    # a classified (possibly known) phenomenon must not mask a different one on a later database
     for d in (case.fact_dbs or []):
       prog2 = lang.Program(facts_for(d, case.schema) + case.program.stmts, case.program.engine, case.program.type_checking)
       case2 = Case(case.family, prog2, case.preds, case.schema, depth=case.depth, depths=case.depths)
